@@ -64,6 +64,9 @@ def double_import_cases(acc, rng, count):
                 for (ln, ch) in occs:
                     r = pr.pos_request("textDocument/definition", "main.asm", ln, ch + 1)
                     res = r.get("result") or []
+                    if r.get("busy"):
+                        acc.inconc("language server still computing after the extended watchdog")
+                        break
                     if "dead" in r or "timeout" in r:
                         acc.violation("server-died|definition|double-import", "no answer", dict(w, response=r))
                         return
@@ -142,6 +145,9 @@ def shard(idx, n, seed, tier, params):
                 acc.evaluations += 1
                 resp = pr.pos_request("textDocument/definition", o["file"], o["line"], col)
                 w = {"files": files, "request": "definition", "at": [o["file"], o["line"], col], "expected": list(d.pos[:4]), "response": resp}
+                if resp.get("busy"):
+                    acc.inconc("language server still computing after the extended watchdog")
+                    break
                 if "dead" in resp or "timeout" in resp:
                     acc.violation("server-died|definition", "no answer (%r): %s" % (resp, pr.srv.stderr[-200:].decode("utf8", "replace")), w)
                     alive = False
@@ -176,6 +182,9 @@ def shard(idx, n, seed, tier, params):
                     acc.evaluations += 1
                     resp = pr.pos_request("textDocument/references", d.pos[0], d.pos[1], col, {"context": {"includeDeclaration": incl}})
                     w = {"files": files, "request": "references", "def": d.name, "at": [d.pos[0], d.pos[1], col], "include_declaration": incl, "response": resp}
+                    if resp.get("busy"):
+                        acc.inconc("language server still computing after the extended watchdog")
+                        break
                     if "dead" in resp or "timeout" in resp:
                         acc.violation("server-died|references", "no answer (%r)" % (resp,), w)
                         alive = False
